@@ -27,6 +27,8 @@ type Store struct {
 	S *gate.Sched
 	// Obs may be nil.
 	Obs Observer
+	// InTx may add cheap projected state to the "write.fn" event; it runs inside the write transaction.
+	InTx func(tx stoabs.WriteTx, fields map[string]any)
 	// ShelfFault decides, for WriteShelf/ReadShelf calls (notifier job bookkeeping), whether the call
 	// proceeds ("go"), fails ("fail") or the incarnation dies right there ("crash"). May be nil.
 	ShelfFault func(kind, shelf string) string
@@ -46,6 +48,9 @@ func (g *Store) Kill() {
 	g.mu.Unlock()
 	g.S.Kill()
 }
+
+// Dead reports whether the incarnation was killed.
+func (g *Store) Dead() bool { return g.isDead() }
 
 func (g *Store) isDead() bool {
 	g.mu.Lock()
@@ -95,7 +100,16 @@ func (g *Store) Read(ctx context.Context, fn func(stoabs.ReadTx) error) error {
 			return ErrDead
 		}
 	}
-	return g.KVStore.Read(ctx, func(tx stoabs.ReadTx) error { return fn(rtx{tx, g}) })
+	gated := a != "" && !g.inHook(a)
+	err := g.KVStore.Read(ctx, func(tx stoabs.ReadTx) error { return fn(rtx{tx, g}) })
+	if gated {
+		res := "ok"
+		if err != nil {
+			res = "err"
+		}
+		g.obs(a, "read.done", map[string]any{"res": res})
+	}
+	return err
 }
 
 func (g *Store) Write(ctx context.Context, fn func(stoabs.WriteTx) error, opts ...stoabs.TxOption) error {
@@ -143,12 +157,12 @@ func (g *Store) Write(ctx context.Context, fn func(stoabs.WriteTx) error, opts .
 				return
 			}
 			g.setHook(a, 1)
+			g.obs(a, "commit.hook.begin", nil)
 			stoabs.AfterCommitOption{}.Invoke(hooks)
 			g.setHook(a, -1)
 			g.obs(a, "commit.hook.done", nil)
 		}))
 	return g.KVStore.Write(ctx, func(tx stoabs.WriteTx) error {
-		g.obs(a, "write.locked", nil)
 		err := fn(wtx{tx, g})
 		if g.isDead() {
 			return ErrDead
@@ -158,7 +172,11 @@ func (g *Store) Write(ctx context.Context, fn func(stoabs.WriteTx) error, opts .
 			if err != nil {
 				res = "err"
 			}
-			g.obs(a, "write.fn", map[string]any{"res": res})
+			f := map[string]any{"res": res}
+			if g.InTx != nil {
+				g.InTx(tx, f)
+			}
+			g.obs(a, "write.fn", f)
 			switch g.S.At(a, "write.fnEnd") {
 			case "fail":
 				if err == nil {
@@ -185,7 +203,11 @@ func (g *Store) WriteShelf(ctx context.Context, shelf string, fn func(stoabs.Wri
 			return ErrDead
 		}
 	}
-	return g.KVStore.WriteShelf(ctx, shelf, fn)
+	err := g.KVStore.WriteShelf(ctx, shelf, fn)
+	if err == nil {
+		g.obs("-", "shelf.write", map[string]any{"shelf": shelf})
+	}
+	return err
 }
 
 func (g *Store) ReadShelf(ctx context.Context, shelf string, fn func(stoabs.Reader) error) error {
